@@ -67,8 +67,16 @@ CLAIMED["C06"] = (
     "(pigeonhole over Nat.repr-injective candidate names), first-free image/media index is unused (sorted scan, duplicates "
     "allowed), slide id = max+1 in 256..2147483647 on the common path and unused/in-range on the fallback path; any "
     "interleaving of slide-level, nested-group, group-shape/freeform and turbo allocations keeps ids pairwise distinct and "
-    "existing ids untouched (induction over the op list, turbo restricted to its documented single-proxy use).  Tied to the "
-    "code by exact correspondence on seeded populations through the public API, plus end-to-end uniqueness/stability "
+    "existing ids untouched (induction over the op list, turbo restricted to its documented single-proxy use).  "
+    "Relationships shared by several references in one part (Model/Links: relate_to's re-use of a matching relationship, "
+    "_next_rId, drop_rel's reference count, the clear-then-relate order of the hyperlink / slide-jump setters): for every "
+    "part state with distinct keys and no dangling reference and EVERY history of link assignments on any holders, keys stay "
+    "distinct, no reference dangles, the holder reads the target it was given, every OTHER holder still reads what it read "
+    "before (also when it shared the relationship released, also when the freed rId is handed out again), relationships the "
+    "holder did not use are untouched, and each holder reads the last target assigned to it (run_address); the reverse order "
+    "of the two clearing steps provably loses a relationship in use.  Tied to the "
+    "code by exact correspondence on seeded populations through the public API (for links: the part's relationships in "
+    "insertion order and every r:id reference after every assignment, parts with foreign and gapped rIds), plus end-to-end uniqueness/stability "
     "checks on saved files after mixed histories over decks with scrambled slide part names.",
     "Trusted: which allocator each add_* method uses is observed; slide-id fallback theorem is stated on the sorted valid "
     "list (partial); turbo + second proxy is the documented limitation (negative theorem, not judged).",
